@@ -1,10 +1,10 @@
-"""C02 — configuration of the check (deductive tier under construction)."""
+"""C02 — Cascade output: every parent tile is the 2x2 downsample of its children mosaic."""
 PROPERTY = "C02"
 LEVEL = "other"
-CONTRACT_MODULES = ["contracts.specfuns"]
-FUNCTIONS = []
+CONTRACT_MODULES = ["contracts.specfuns", "contracts.lemmas_desc", "contracts.pyramid", "contracts.image", "contracts.merge"]
+FUNCTIONS = ["toasty.merge.averaging_merger", "toasty.merge.TileMerger.walk_callback"]
 LEMMAS = []
 SLOW = ()
-TRUSTED_BASE = []
-ASSUMPTIONS = []
-EXPLANATION = "bounded run-time tier only so far"
+TRUSTED_BASE = ["pyvc VC generator; z3/cvc5", "numpy contracts of DESIGN.md 3.1 (reshape/nanmean/astype as encoded in pyvc/ndarray.py)"]
+ASSUMPTIONS = ["floating point treated as real arithmetic (means are exact reals; the bounded tier compares to 4 eps)"]
+EXPLANATION = "stock merger and cascade callback against the block-reduce / placement statement"
